@@ -61,6 +61,7 @@ func main() {
 		if err != nil {
 			fatal(err)
 		}
+		curPkgVars = collectPkgVars(dir, ents)
 		for _, e := range ents {
 			n := e.Name()
 			if e.IsDir() || !strings.HasSuffix(n, ".go") || strings.HasSuffix(n, "_test.go") {
@@ -116,6 +117,43 @@ func main() {
 	fmt.Printf("instrument: %d overlay entries written to %s\n", len(keys), filepath.Join(*out, "overlay.json"))
 }
 
+// curPkgVars: names of the package-level variables of the package being rewritten. Every
+// mention of one is reported to the happens-before monitor (a write when it is the root of an
+// assignment target), so that mutable state hoisted to package scope is watched like the
+// anchored fields. The event's object is the variable's address, so a local that shadows the
+// name produces events on its own (thread-private) address and cannot raise an alarm.
+var curPkgVars map[string]bool
+
+func collectPkgVars(dir string, ents []os.DirEntry) map[string]bool {
+	vars := map[string]bool{}
+	for _, e := range ents {
+		n := e.Name()
+		if e.IsDir() || !strings.HasSuffix(n, ".go") || strings.HasSuffix(n, "_test.go") {
+			continue
+		}
+		f, err := parser.ParseFile(token.NewFileSet(), filepath.Join(dir, n), nil, 0)
+		if err != nil {
+			continue
+		}
+		for _, d := range f.Decls {
+			gd, ok := d.(*ast.GenDecl)
+			if !ok || gd.Tok != token.VAR {
+				continue
+			}
+			for _, sp := range gd.Specs {
+				if vs, ok := sp.(*ast.ValueSpec); ok {
+					for _, id := range vs.Names {
+						if id.Name != "_" {
+							vars[id.Name] = true
+						}
+					}
+				}
+			}
+		}
+	}
+	return vars
+}
+
 func fatal(err error) {
 	fmt.Fprintln(os.Stderr, "instrument:", err)
 	os.Exit(2)
@@ -145,12 +183,21 @@ func rewriteFile(src, dst, pkg string) (bool, error) {
 		return false, err
 	}
 	r := &rewriter{fset: fset, file: f, pkg: pkg}
+	topLevelSpecs = map[interface{}]bool{}
+	for _, d := range f.Decls {
+		if gd, ok := d.(*ast.GenDecl); ok && gd.Tok == token.VAR {
+			for _, sp := range gd.Specs {
+				topLevelSpecs[sp] = true
+			}
+		}
+	}
 	r.rewriteImports()
 	if pkg == "neat/genetics" {
 		r.rewriteConcurrency()
 		r.addPopulationPoints()
-		r.addAccessEvents()
 	}
+	anchorFields = pkg == "neat/genetics"
+	r.addAccessEvents()
 	if r.needSched {
 		r.addImport("vsched", modPath+"/neat/vsched")
 	}
@@ -419,6 +466,44 @@ type access struct {
 	write bool
 }
 
+// anchorFields: report the anchored struct fields (package genetics only); package-level
+// variables are reported in every instrumented package.
+var anchorFields bool
+
+// rootIdent returns the identifier an assignable expression is rooted at (x, x.f.g, x[i].f, *x).
+func rootIdent(e ast.Expr) *ast.Ident {
+	for {
+		switch x := e.(type) {
+		case *ast.Ident:
+			return x
+		case *ast.SelectorExpr:
+			e = x.X
+		case *ast.IndexExpr:
+			e = x.X
+		case *ast.StarExpr:
+			e = x.X
+		case *ast.ParenExpr:
+			e = x.X
+		default:
+			return nil
+		}
+	}
+}
+
+func isPkgVar(id *ast.Ident) bool {
+	if id == nil || !curPkgVars[id.Name] {
+		return false
+	}
+	if id.Obj == nil {
+		return true // declared in another file of the package
+	}
+	// declared in this file: a package-level var has a ValueSpec declaration that is not inside a function;
+	// the parser resolves locals to their own objects, whose Pos lies inside a function body
+	return id.Obj.Kind == ast.Var && topLevelSpecs[id.Obj.Decl]
+}
+
+var topLevelSpecs = map[interface{}]bool{}
+
 func (r *rewriter) addAccessEvents() {
 	for _, d := range r.file.Decls {
 		fd, ok := d.(*ast.FuncDecl)
@@ -526,10 +611,21 @@ func shallowAccesses(st ast.Stmt) []access {
 	}
 	isAnch := func(e ast.Expr) (*ast.SelectorExpr, bool) {
 		se, ok := e.(*ast.SelectorExpr)
-		if ok && anchoredFields[se.Sel.Name] {
+		if ok && anchorFields && anchoredFields[se.Sel.Name] {
 			return se, true
 		}
 		return nil, false
+	}
+	addVar := func(id *ast.Ident, write bool) {
+		key := "pkgvar " + id.Name
+		if write {
+			key += "W"
+		}
+		if seen[key] {
+			return
+		}
+		seen[key] = true
+		res = append(res, access{base: &ast.UnaryExpr{Op: token.AND, X: &ast.Ident{Name: id.Name}}, field: "package variable " + id.Name, write: write})
 	}
 	var scanExpr func(e ast.Node)
 	scanExpr = func(e ast.Node) {
@@ -554,6 +650,13 @@ func shallowAccesses(st ast.Stmt) []access {
 				if se, ok := isAnch(x); ok {
 					add(se, false)
 				}
+				// the selected name is a field or method, not a variable: look at the operand only
+				scanExpr(x.X)
+				return false
+			case *ast.Ident:
+				if isPkgVar(x) {
+					addVar(x, false)
+				}
 			}
 			return true
 		})
@@ -561,10 +664,13 @@ func shallowAccesses(st ast.Stmt) []access {
 	switch s := st.(type) {
 	case *ast.AssignStmt:
 		for _, l := range s.Lhs {
+			if id := rootIdent(l); s.Tok != token.DEFINE && isPkgVar(id) {
+				addVar(id, true)
+			}
 			if se, ok := isAnch(l); ok {
 				add(se, true)
 				scanExpr(se.X)
-			} else {
+			} else if _, plain := l.(*ast.Ident); !plain {
 				scanExpr(l)
 			}
 		}
@@ -572,6 +678,9 @@ func shallowAccesses(st ast.Stmt) []access {
 			scanExpr(rh)
 		}
 	case *ast.IncDecStmt:
+		if id := rootIdent(s.X); isPkgVar(id) {
+			addVar(id, true)
+		}
 		if se, ok := isAnch(s.X); ok {
 			add(se, true)
 		} else {
